@@ -49,6 +49,9 @@ type mframe struct {
 	// inherited - is in force (a time limit counts for cpu: the clock is sampled while charging cpu).
 	// Only then does the frame keep count: used of an unlimited resource is not specified.
 	tracked [2]bool
+	// cpu charged successfully since the frame's time ran out (the clock is only looked at every 10000
+	// ticks of cpu: the kill may be that late, not later)
+	cpuAfterExpiry uint64
 }
 
 func resArr(r rt.RuntimeResources) [3]uint64 { return [3]uint64{r.Cpu, r.Memory, r.Millis} }
@@ -406,6 +409,15 @@ func runCtx(ctx *core.RunCtx) {
 				fail("C07.I4", "limit-bypassed:"+resNames[x], "require %s %d succeeded although used %s + %d reaches kill %s", resNames[x], n, f.used[x], n, f.hard[x])
 				return
 			default:
+				if x == 0 && f.hard[2].Cmp(inf) != 0 && new(big.Int).Sub(f.hard[2], elapsed(f)).Sign() <= 0 {
+					// I8: the time is up; the implementation samples the clock every 10000 ticks of cpu, so
+					// it may not have noticed yet - but it has to within two such periods
+					if f.cpuAfterExpiry += n; f.cpuAfterExpiry > 25000 {
+						fail("C07.I8", "time-limit-not-enforced", "the context's time ran out %s ms ago and it has been charged %d cpu ticks since without being terminated", new(big.Int).Sub(elapsed(f), f.hard[2]), f.cpuAfterExpiry)
+						return
+					}
+					ctx.Count("probe.cpu charged after the time ran out (within the sampling period)", 1)
+				}
 				f.used[x] = sum
 				if x == 1 && f.tracked[1] {
 					f.held = new(big.Int).Add(f.held, new(big.Int).SetUint64(n))
